@@ -31,8 +31,9 @@ def run(ctx):
     if len(cells) != CELLS[cfg]:
         raise verif.ToolError("expected %d cells, TLC emitted %d" % (CELLS[cfg], len(cells)))
     # design switches: a path that skips validation / Ord by storage form must violate the invariants
-    for bcfg, inv in (("MC_TextRepr_skip.cfg", "ExistsIffValid"), ("MC_TextRepr_ordform.cfg", "CompareByContent"),
-                      ("MC_TextRepr_lenfirst.cfg", "CompareByContent")):
+    bugs = (("MC_TextRepr_skip.cfg", "ExistsIffValid"), ("MC_TextRepr_ordform.cfg", "CompareByContent"),
+            ("MC_TextRepr_lenfirst.cfg", "CompareByContent"))
+    for bcfg, inv in (bugs if ctx.thorough else bugs[:1]):
         rb = ctx.tlc("TextRepr", bcfg, allow_violation=True, coverage=False)
         ctx.states -= rb.states
         ctx.transitions -= rb.generated
